@@ -33,7 +33,7 @@ fn seed() -> u64 {
         .unwrap_or(0)
 }
 
-fn run_sharded(def: &CheckDef, tier: Tier, shards: usize) -> Partial {
+fn run_sharded(def: &CheckDef, tier: Tier, shards: usize) -> (Partial, bool) {
     let exe = std::env::current_exe().expect("current exe");
     let dir = format!("{}/target/shards/{}-{}-{}", verif_dir(), def.id, tier.name(), std::process::id());
     let _ = std::fs::remove_dir_all(&dir);
@@ -66,10 +66,7 @@ fn run_sharded(def: &CheckDef, tier: Tier, shards: usize) -> Partial {
         }
     }
     let _ = std::fs::remove_dir_all(&dir);
-    if failed {
-        exit(2);
-    }
-    merged
+    (merged, failed)
 }
 
 fn main() {
@@ -123,9 +120,9 @@ fn main() {
             };
             let t0 = Instant::now();
             let shards = (def.shards)(tier);
-            let merged = if shards <= 1 {
+            let (merged, worker_failed) = if shards <= 1 {
                 match checks::catch(|| (def.run)(tier, 0, 1, seed())) {
-                    Ok(p) => p,
+                    Ok(p) => (p, false),
                     Err(e) => {
                         eprintln!("MACHINERY: check {id} panicked: {e}");
                         exit(2)
@@ -137,9 +134,9 @@ fn main() {
             let wall = t0.elapsed().as_secs_f64();
             let info = (def.info)(tier);
 
-            // Vacuity guards.
+            // Vacuity guards (not meaningful when a worker died: its share is missing).
             let mut vacuous = false;
-            for (w, n) in &merged.witnesses {
+            for (w, n) in merged.witnesses.iter().filter(|_| !worker_failed) {
                 if *n == 0 {
                     eprintln!("MACHINERY: vacuity witness never hit: {w}");
                     vacuous = true;
@@ -197,11 +194,12 @@ fn main() {
             for l in &lines {
                 println!("{l}");
             }
-            if vacuous {
-                exit(2);
-            }
+            // a demonstrated violation (it has a replay file) stands whatever else went unexplored
             if !lines.is_empty() {
                 exit(1);
+            }
+            if vacuous || worker_failed {
+                exit(2);
             }
         }
         _ => {
